@@ -85,10 +85,17 @@ def parseIntrinsic (s : PS) : PR Val :=
       | .hang => .hang
   go kinds s none
 
+def isAssocVal : Val → Bool
+  | .assoc _ _ => true
+  | _ => false
+
+def pairsOf (items : List Val) : List (Val × Val) :=
+  items.filterMap fun v => match v with | .assoc k v => some (k, v) | _ => none
+
 /-- build the collection for a context (the `switch context` of `parseCollection`) -/
 def mkCollection (ctx : List Nat) (items : List Val) (closeTok : Option Token) (s : PS) : PR Val :=
-  let isAssoc : Val → Bool := fun v => match v with | .assoc _ _ => true | _ => false
-  let pairs : List (Val × Val) := items.filterMap fun v => match v with | .assoc k v => some (k, v) | _ => none
+  let isAssoc : Val → Bool := isAssocVal
+  let pairs : List (Val × Val) := pairsOf items
   let name := fun (str : String) => ctx = str.toList.map ch
   if name "Array" then .ok (.arr true false items) closeTok s
   else if name "Catalog" then
